@@ -1,6 +1,6 @@
 (** Pinned statements of the C19 property theorems: compiled on every check, so a theorem
     cannot be weakened silently. *)
-From V Require Import Base.Util C20.Model C19.Model C19.Spec C19.Proofs C19.Proofs3 C19.Ghost C19.GhostProofs C19.Corr C19.Properties.
+From V Require Import Base.Util C20.Model C19.Model C19.Spec C19.Proofs C19.Proofs3 C19.Proofs6 C19.Ghost C19.GhostProofs C19.Corr C19.Properties.
 From Coq Require Import Sorted.
 
 Check (C19_ids_fresh : forall parse_o emit_o h,
@@ -49,13 +49,35 @@ Check (C19_ghost_exit_frees_all : forall parse_o emit_o h,
 Check (C19_ghost_needs_exact_capacity :
   gh_faults (grun 1 (fun _ => POk []) (fun _ _ => EOk []) init_state ghost_init
                   [Initiate (s "/p/a.graphql") (s "query A { a }"); Free 1]) = [BadFree 0]).
-Check (C19_emit_trap_refuted : agree w_emit_trap = true /\ holds w_emit_trap = false).
-Check (C19_parse_trap_refuted :
-  (agree w_parse_trap = true /\ holds w_parse_trap = false)
-  /\ (agree w_parse_trap0 = true /\ holds w_parse_trap0 = false)).
+Check (C19_emit_never_traps_errs_iff : forall parse_o resolve_o st t x,
+  find_task t (tasks st) = Some x ->
+  snd (step parse_o (staged_emit resolve_o) st (Emit t)) <> Trap
+  /\ (snd (step parse_o (staged_emit resolve_o) st (Emit t)) = RBool false <->
+      (exists m, resolve_o (t_root x) (t_files x) = RErr m)
+      \/ (exists defs spreads js n, resolve_o (t_root x) (t_files x) = ROk defs spreads js
+                                    /\ In n spreads /\ ~ In n defs))
+  /\ (snd (step parse_o (staged_emit resolve_o) st (Emit t)) = RBool false
+      \/ snd (step parse_o (staged_emit resolve_o) st (Emit t)) = RBool true)).
+Check (C19_model_meets_spec_staged : forall parse_o resolve_o h,
+  (forall src, parse_o src <> PTrap) ->
+  spec_check parse_o (staged_emit resolve_o) false s_init h
+             (run parse_o (staged_emit resolve_o) init_state h) = true).
+Check (C19_failure_changes_only_result : forall parse_o emit_o h st c st' x,
+  exec parse_o emit_o init_state h = Some st ->
+  step parse_o emit_o st c = (Some st', x) -> x = RId 0 \/ x = RBool false ->
+  next_id st' = next_id st /\ tasks st' = tasks st).
+Check (C19_emit_undefined_is_error : agree w_emit_undefined = true /\ holds w_emit_undefined = true).
+Check (C19_parse_error_is_error : agree w_parse_error = true /\ holds w_parse_error = true).
 (* the definitions the statements rest on are pinned too *)
 Check (eq_refl : total = fun parse_o emit_o =>
   (forall src, parse_o src <> PTrap) /\ (forall r fs, emit_o r fs <> ETrap)).
+Check (eq_refl : staged_emit = fun resolve_o root fs => emit_of (resolve_o root fs)).
+Check (eq_refl : emit_of = fun r =>
+  match r with
+  | RErr m => EErr m
+  | ROk defs spreads js =>
+      match first_undefined defs spreads with Some n => EErr (undefined_msg n) | None => EOk js end
+  end).
 Check (eq_refl : holds = fun c =>
   spec_check (ptab_lookup (c_ptab c)) (etab_lookup (c_etab c)) false s_init (c_calls c) (c_resps c)).
 Print Assumptions C19_ids_fresh.
@@ -70,5 +92,6 @@ Print Assumptions C19_emit_equals_fresh.
 Print Assumptions C19_ghost_ownership.
 Print Assumptions C19_ghost_exit_frees_all.
 Print Assumptions C19_ghost_needs_exact_capacity.
-Print Assumptions C19_emit_trap_refuted.
-Print Assumptions C19_parse_trap_refuted.
+Print Assumptions C19_emit_never_traps_errs_iff.
+Print Assumptions C19_model_meets_spec_staged.
+Print Assumptions C19_failure_changes_only_result.
